@@ -298,6 +298,36 @@ func (e *Exec) Concretize(t *Term) uint64 {
 	return v
 }
 
+// Pick fixes t to one value allowed by the path condition WITHOUT exploring the alternatives.
+// Sound only for existential witnesses (the harness needs some value, not every value).
+func (e *Exec) Pick(t *Term) uint64 {
+	if t.isConst() {
+		return t.val
+	}
+	if e.pos < len(e.prefix) {
+		d := e.prefix[e.pos]
+		e.pos++
+		if d.K != 'p' {
+			e.abort(EndUnsupported, "replay divergence: expected %c decision, got pick", d.K)
+		}
+		e.decisions = append(e.decisions, d)
+		e.addPC(e.pool.Eq(t, e.pool.BV(d.V, t.sort.w)))
+		return d.V
+	}
+	e.solver.define(t)
+	if r := e.solver.Check(); r != Sat {
+		if r == Unknown {
+			e.unknowns++
+			e.abort(EndUnsupported, "solver unknown while picking a witness")
+		}
+		e.abort(EndInfeasible, "no witness")
+	}
+	v := e.solver.EvalBV(t)
+	e.record(Decision{K: 'p', V: v})
+	e.addPC(e.pool.Eq(t, e.pool.BV(v, t.sort.w)))
+	return v
+}
+
 // Choose is an n-way choice without constraints (scheduler, case-splits).
 func (e *Exec) Choose(n int) int {
 	if n <= 1 {
@@ -443,6 +473,8 @@ func decisionsString(ds []Decision) string {
 			fmt.Fprintf(&sb, "%d", d.V)
 		case 'm':
 			fmt.Fprintf(&sb, "m%d.", d.V)
+		case 'p':
+			fmt.Fprintf(&sb, "p%d.", d.V)
 		case 'c':
 			if d.Open {
 				sb.WriteString("c?.")
